@@ -30,10 +30,10 @@ suite green (288/288):
   `tools/seedtest.sh` (patch applies to a clean checkout, demo passes/fails as
   claimed, pinned suite still 288/288) before keeping it.
 
-Across the eight rounds 87 of the 160 seeded changes were caught on first contact (11, 12, 10, 10, 13, 10, 11, 10 of 20), the
-other 73 pointed at generator or oracle gaps that were then closed - each table below says which - and eleven of the
+Across the nine rounds 98 of the 180 seeded changes were caught on first contact (11, 12, 10, 10, 13, 10, 11, 10, 11 of 20), the
+other 82 pointed at generator or oracle gaps that were then closed - each table below says which - and eleven of the
 strengthenings exposed genuine defects of the unchanged tree (fixed, §5.1: C18 x2, C08 x2, C04, C15, C11, C05, C20, C10; the C08
-bignum one was pointed out by a seeding agent as a side observation).
+bignum one was pointed out by a seeding agent as a side observation) plus one that is recorded rather than repaired (C06, §5.2).
 
 First contact with the first 20 seeded changes (quick tier, before any strengthening):
 11 caught at once (C01 C03 C05 C07 C08 C09 C12 C15 C16 C17 C19), 8 missed
@@ -164,6 +164,21 @@ replays off: 10 caught at once (C02h C03h C06h C08h C09h C11h C12h C14h C15h C19
 | C17h | a data frame and then the matching pong for the same ping start two ping chains: extra pings, responsive peer dropped | a ping was answered by a pong or by data, never both | answer kind "data, then the pong a moment later" (interval restarts at the data frame; exactly one ping per interval afterwards) |
 | C18h | `define()` of a class already defined under another URI returns early: the second URI stays unmapped | each class was mapped to one URI | the caller also maps the class to an alias URI, before or after |
 | C20h | `call()` swallows the codec's failure for arguments it cannot serialize and sends the CALL in the clear | payloads were always encodable by the codec | values the transport can carry but the codec cannot (set, frozenset, datetime, UUID, nested) in every direction: the operation may fail, the clear payload must not go out. On the unchanged tree the *result* direction did exactly that (fixed, §5.1), and the error direction left the invocation unanswered (C10's claim; fixed, §5.1) |
+
+A **ninth round** (`seeded/<ID>i/`; eight earlier summaries given) - first contact, quick tier, replays off: 11 caught at once
+(C01i C02i C03i C07i C11i C12i C13i C14i C15i C18i C20i), 9 missed:
+
+| prop | seeded change needs | gap in my check | strengthening |
+|---|---|---|---|
+| C04i | `register(obj)`: the decorator-level options of one method stick to the later methods that have none | objects with decorated methods were not registered in C04 | enumerated job: `register(obj)` / `subscribe(obj)` of an object with three decorated methods x 8 subsets carrying decorator options x options passed to the call or not; every request carries its own decorator's options, else the call's; replies in reverse order reach their own registrations |
+| C05i | client in CLOSING: every further close frame from the server re-arms the server-drop timer | the bound for a silent peer was measured from "now" at the end of the history, and time only ever advanced to pending deadlines | the deadline runs from the moment the wait began (our close frame on the wire / close frames exchanged), checked after every event and at the end; clock advances by an amount (0.6 s) are part of the exhaustive alphabet |
+| C06i | a raising `onWelcome` now also fires `leave` (copied from the failing-`onChallenge` path) | my rule *permitted* leave whenever this side aborted the attempt - because the unchanged tree does it after a failing `onChallenge` | the rule is now the literal statement (leave only for a joined session or a router abort); what the unchanged tree does after a failing `onChallenge` became an open finding (§5.2) with its own key, the `onWelcome` path has another key |
+| C08i | decoder exception without arguments (msgpack reserved octet 0xC1, nesting beyond the unpacker's stack) makes the error handler raise IndexError | random / mutated octets rarely produce a reserved lead octet at a value position; no deep nesting | exhaustive job per serializer: all 256 values substituted for and inserted before every octet of six valid messages, every truncation, containers nested 50 .. 100000 deep; plain and batched (766 622 inputs) |
+| C09i | native validator handle stored on the class: validators alive at the same time share state | one validator at a time | every generated case is also run on two validators of the same implementation fed alternately (the second created after the first consumed a chunk) |
+| C10i | (same variable-folding slip as C04i) `details_arg` of one decorated method leaks to the next: endpoint called with an unrequested `details` | registered objects had one decorated method | style "obj-multi": a second decorated method, sorted first, with decorator options asking for call details |
+| C16i | 64-bit length read as two 32-bit halves, only the low half used: a frame announcing k*2^32 + r octets passes as r octets | announced sizes stopped at 350 000 (payloads are materialised) | header-only frames announcing 2^32 .. 2^63 octets plus a small remainder (as first frame or as continuation): must fail at the header; nothing that follows becomes a message |
+| C17i | starting the closing handshake cancels the pending ping timeout: silent peer never dropped (close timeout off or later) | "ping outstanding, then close" only had responsive peers | silent variant: dropped by the ping's deadline, reported as ping timeout |
+| C19i | `Session.onWelcome` returns early for absent / empty `authextra`: a SCRAM session joins without any server signature | authenticators were driven directly, not through a session | whole-session job (`Session.add_authenticator`, scripted router, proof verified by the RFC 5802 reference) x 9 WELCOME variants: joins only for the correct signature |
 
 Round 4 also produced two mutants that do not terminate (C15d on the receive path, C02d under interleaving): a check
 that hangs is useless, so every case / machine step / enumeration block now runs under a CPU-time guard (150 s of CPU of
